@@ -40,7 +40,7 @@ CLAIMED = {
              "answers exactly RFC 1071 verification (one's-complement sum of pseudo-header and segment including the checksum field is 0xFFFF), spec given as a "
              "fold of end-around-carry additions; closed under the global context. Model tied to checksums.py by correspondence on boundary-steered frames. "
              "The capture-level filter equation is stated on the main-loop model once that exists; end-to-end runs validate it meanwhile.",
-        note="Trusted: Coq kernel; Spec/Rfc1071.v; the abstract packet (dpkt parsing modelled, not verified; no IPv6 extension headers; UDP/IPv4 checksum 0 excluded); "
+        note="Trusted: Coq kernel; Spec/Rfc1071.v; the abstract packet (dpkt parsing modelled, not verified; IPv6 pseudo-header with the upper-layer protocol whatever extension headers precede; UDP/IPv4 checksum 0 excluded); "
              "tools/ref/synth.py frame builder; extraction/driver.",
         technique="Coq proof (mod-65535 arithmetic with lia + Euclidean hooks, word-splitting lemmas) + boundary-steered correspondence",
         design="3 C11"),
